@@ -7,12 +7,19 @@ type Chan[T any] struct {
 
 // Make is the rewrite of make(chan T, n); site is the source position.
 func Make[T any](n int, site string) *Chan[T] {
+	return &Chan[T]{k: newCore(n, site)}
+}
+
+// newCore is not generic on purpose: generic code is compiled (and, in the race variant, instrumented)
+// in the importing package, and the channel counter is scheduler state.
+//go:noinline
+func newCore(n int, site string) *core {
 	k := &core{cap: n, name: site}
 	if s := S; s != nil {
 		k.id = s.nchan
 		s.nchan++
 	}
-	return &Chan[T]{k: k}
+	return k
 }
 
 func (c *Chan[T]) core() *core {
